@@ -173,6 +173,9 @@ func TestC10(t *testing.T) {
 		if tc.NComments > 0 {
 			c.Class("with-comments")
 		}
+		if hasMultilineDoc(tc.Toks) {
+			c.Class("multi-line-doc")
+		}
 		if hasLongList(tc.Toks) {
 			c.Class("long-key-list")
 		}
@@ -184,6 +187,15 @@ func TestC10(t *testing.T) {
 		}
 		c.Report(rt, k, evalC10(k))
 	})
+}
+
+func hasMultilineDoc(toks []dsl.Tok) bool {
+	for _, tk := range toks {
+		if strings.HasPrefix(tk.Text, "`") && strings.Contains(tk.Text, "\n") {
+			return true
+		}
+	}
+	return false
 }
 
 func hasLongList(toks []dsl.Tok) bool {
@@ -572,6 +584,9 @@ func TestC09(t *testing.T) {
 		}
 		if tc.NComments > 0 {
 			c.Class("with-comments")
+		}
+		if hasMultilineDoc(tc.Toks) {
+			c.Class("multi-line-doc")
 		}
 		run(rt, k)
 	})
